@@ -389,4 +389,72 @@ Section Rel.
   Proof.
     intros h ps vs i H. revert i. induction H as [|p v ps vs Hp _ IH]; intros [|i]; cbn [nth]; try reflexivity; [exact Hp|apply IH].
   Qed.
+
+  (* ---- a list of freshly allocated lists (enumerate, zip, dict.items()) ---- *)
+  Lemma mapM_map : forall {A B C} (h : A -> B) (g : B -> state -> res (C * state)) l st,
+    mapM (fun x st0 => g (h x) st0) l st = mapM g (map h l) st.
+  Proof.
+    intros A B C h g l. induction l as [|x l IH]; intros st; cbn [mapM map]; [reflexivity|].
+    destruct (g (h x) st) as [[y st1]| |]; cbn [rbind]; try reflexivity. now rewrite IH.
+  Qed.
+
+  Lemma rows_vrel : forall prows rows st, Forall2 (vrels d (hp st)) prows rows ->
+    exists vs st1, mapM (fun row st0 => Ok (new_list row st0)) rows st = Ok (vs, st1) /\ xle st st1 /\ vrels d (hp st1) (map QList prows) vs.
+  Proof.
+    intros prows rows st H. revert prows st H. induction rows as [|row rows IH]; intros prows st H; inversion H as [|prow ? prows' ? Hrow Hrest]; subst; cbn [mapM map].
+    - exists [], st. split; [reflexivity|]. split; [apply xle_refl|constructor].
+    - destruct (new_list_vrel st prow row Hrow) as (v & st' & E & Hx & Hv). rewrite E. cbn [rbind].
+      assert (Hrest' : Forall2 (vrels d (hp st')) prows' rows).
+      { clear - Hrest Hx. induction Hrest; constructor; [now apply (vrs_xle st st')|assumption]. }
+      destruct (IH prows' st' Hrest') as (vs & st1 & E1 & Hx1 & Hvs). rewrite E1. cbn [rbind].
+      exists (v :: vs), st1. split; [reflexivity|]. split; [now apply (xle_trans st st')|].
+      constructor; [now apply (vr_xle st' st1)|exact Hvs].
+  Qed.
+
+  Lemma rows_list_vrel : forall prows rows st, Forall2 (vrels d (hp st)) prows rows ->
+    exists v st2, rbind (mapM (fun row st0 => Ok (new_list row st0)) rows st) (fun '(pairs, st1) => Ok (new_list pairs st1)) = Ok (v, st2)
+      /\ xle st st2 /\ vr st2 (QList (map QList prows)) v.
+  Proof.
+    intros prows rows st H. destruct (rows_vrel prows rows st H) as (vs & st1 & E & Hx & Hvs). rewrite E. cbn [rbind].
+    destruct (new_list_vrel st1 _ vs Hvs) as (v & st2 & E2 & Hx2 & Hv). rewrite E2.
+    exists v, st2. split; [reflexivity|]. split; [now apply (xle_trans st st1)|exact Hv].
+  Qed.
 End Rel.
+
+(* ================================================================ list facts for slices *)
+Lemma skipn_skipn' : forall {A} a b (l : list A), skipn a (skipn b l) = skipn (b + a) l.
+Proof.
+  intros A a b. induction b as [|b IH]; intros l; [reflexivity|]. destruct l as [|x l]; [now rewrite !skipn_nil|]. cbn [plus skipn]. apply IH.
+Qed.
+
+Lemma slice_view : forall {A} (c : list A) off len a k, (a + k <= len)%nat ->
+  firstn k (skipn a (firstn len (skipn off c))) = firstn k (skipn (off + a) c).
+Proof.
+  intros A c off len a k H. rewrite skipn_firstn_comm, firstn_firstn, skipn_skipn'. f_equal. lia.
+Qed.
+
+Lemma Forall2_firstn : forall {A B} (R : A -> B -> Prop) n l l', Forall2 R l l' -> Forall2 R (firstn n l) (firstn n l').
+Proof. intros A B R n l l' H. revert n. induction H; intros [|n]; cbn [firstn]; constructor; auto. Qed.
+Lemma Forall2_skipn : forall {A B} (R : A -> B -> Prop) n l l', Forall2 R l l' -> Forall2 R (skipn n l) (skipn n l').
+Proof. intros A B R n l l' H. revert n. induction H; intros [|n]; cbn [skipn]; try constructor; auto. Qed.
+Lemma Forall2_map_same : forall {A B C} (R : B -> C -> Prop) (f : A -> B) (g : A -> C) l, (forall x, R (f x) (g x)) -> Forall2 R (map f l) (map g l).
+Proof. intros A B C R f g l H. induction l; cbn [map]; constructor; auto. Qed.
+
+(* a string without continuation bytes: its runes are its bytes *)
+Lemma runes_go_single : forall x c, existsb is_cont x = false -> runes_go x [c] = map (fun b => [b]) (c :: x).
+Proof.
+  induction x as [|b x IH]; intros c H; cbn [runes_go map rev app]; [reflexivity|].
+  cbn [existsb] in H. apply Bool.orb_false_iff in H. destruct H as [Hb Hx]. rewrite Hb. cbn [rev app]. f_equal. now apply IH.
+Qed.
+Lemma runes_plain : forall x, existsb is_cont x = false -> runes x = map (fun b => [b]) x.
+Proof.
+  intros [|b x] H; [reflexivity|]. unfold runes. cbn [runes_go]. cbn [existsb] in H. apply Bool.orb_false_iff in H. destruct H as [Hb Hx].
+  rewrite Hb. now apply runes_go_single.
+Qed.
+Lemma rune_count_plain : forall x, existsb is_cont x = false -> rune_count x = length x.
+Proof.
+  intros x H. unfold rune_count. induction x as [|b x IH]; [reflexivity|]. cbn [existsb] in H. apply Bool.orb_false_iff in H. destruct H as [Hb Hx].
+  cbn [filter]. rewrite Hb. cbn [negb length]. now rewrite IH.
+Qed.
+Lemma str_concat_singles : forall x, str_concat (map (fun b => [b]) x) = x.
+Proof. induction x as [|b x IH]; [reflexivity|]. cbn [map str_concat app]. now rewrite IH. Qed.
